@@ -252,51 +252,149 @@ def _cexpr(node):
     raise ExtractionError('unknown expression in a _call body: `{}`'.format(_u(node)))
 
 
-INPLACE = {
-    'OperatorSum': ['tmp = self.__tmp_ran if self.__tmp_ran is not None else self.range.element()',
-                    'self.left(x, out=tmp)', 'self.right(x, out=out)', 'out += tmp'],
-    'OperatorVectorSum': ['self.operator(x, out=out)', 'out += self.vector', 'return out'],
-    'OperatorPointwiseProduct': ['tmp = self.right.range.element()', 'self.left(x, out=tmp)',
-                                 'self.right(x, out=out)', 'out *= tmp'],
-    'OperatorLeftScalarMult': ['self.operator(x, out=out)', 'out *= self.scalar'],
-    'OperatorRightScalarMult': ['if self.__tmp is not None:\n    tmp = self.__tmp\nelse:\n'
-                                '    tmp = self.domain.element()',
-                                'tmp.lincomb(self.scalar, x)', 'self.operator(tmp, out=out)'],
-    'OperatorLeftVectorMult': ['self.operator(x, out=out)', 'out *= self.vector'],
-    'OperatorRightVectorMult': ['tmp = self.domain.element()', 'x.multiply(self.vector, out=tmp)',
-                                'self.operator(tmp, out=out)'],
-    'FunctionalLeftVectorMult': ['scalar = self.functional(x)', 'out.lincomb(scalar, self.vector)'],
-}
+# --- in-place (`out` given) branches of `_call` -> statement lists -----------------------
+
+REGS = {'x': 'x', 'out': 'out', 'tmp': 'tmp', 'scalar': 'sc'}
+
+
+def _reg(node):
+    if isinstance(node, ast.Name) and node.id in REGS:
+        return 'Reg.' + REGS[node.id]
+    raise ExtractionError('unknown local in an in-place branch: `{}`'.format(_u(node)))
+
+
+def _opd(node):
+    if isinstance(node, ast.Name):
+        return '(Opd.reg {})'.format(_reg(node))
+    if isinstance(node, ast.Attribute) and _u(node.value) == 'self' and \
+            node.attr in ('scalar', 'vector'):
+        return 'Opd.' + node.attr
+    raise ExtractionError('unknown operand in an in-place branch: `{}`'.format(_u(node)))
+
+
+def _is_private_tmp(node):
+    return isinstance(node, ast.Attribute) and _u(node.value) == 'self' and \
+        node.attr.lstrip('_').startswith('tmp')
+
+
+def _is_fresh(node):
+    """`<space>.element()` with no argument, or `self.__tmp if self.__tmp is not None else
+    <space>.element()`"""
+    if isinstance(node, ast.Call) and isinstance(node.func, ast.Attribute) and \
+            node.func.attr == 'element' and not node.args and not node.keywords and \
+            _u(node.func.value) in ('self.range', 'self.domain', 'self.right.range'):
+        return True
+    if isinstance(node, ast.IfExp) and _is_private_tmp(node.body) and \
+            _u(node.test) == '{} is not None'.format(_u(node.body)) and _is_fresh(node.orelse):
+        return True
+    return False
+
+
+def _sub_call(node):
+    """`self.<sub>(arg[, out=dst])` -> (first?, arg node, dst node or None)"""
+    if isinstance(node, ast.Call) and isinstance(node.func, ast.Attribute) and \
+            _u(node.func.value) == 'self' and node.func.attr in SUBS and len(node.args) == 1:
+        kws = {k.arg: k.value for k in node.keywords}
+        if set(kws) <= {'out'}:
+            return SUBS[node.func.attr] == 'first', node.args[0], kws.get('out')
+    return None
+
+
+def _b(x):
+    return 'true' if x else 'false'
+
+
+def _stmts(body):
+    """statement list of an in-place branch -> list of Lean `Stmt` terms"""
+    out = []
+    for i, st in enumerate(body):
+        last = i == len(body) - 1
+        # tmp = <fresh>
+        if isinstance(st, ast.Assign) and len(st.targets) == 1 and _is_fresh(st.value):
+            out.append('Stmt.fresh {}'.format(_reg(st.targets[0])))
+            continue
+        # if self.__tmp is not None: tmp = self.__tmp  else: tmp = <fresh>
+        if isinstance(st, ast.If) and len(st.body) == 1 and len(st.orelse) == 1 and \
+                isinstance(st.body[0], ast.Assign) and isinstance(st.orelse[0], ast.Assign) and \
+                _is_private_tmp(st.body[0].value) and \
+                _u(st.test) == '{} is not None'.format(_u(st.body[0].value)) and \
+                _u(st.body[0].targets[0]) == _u(st.orelse[0].targets[0]) and \
+                _is_fresh(st.orelse[0].value):
+            out.append('Stmt.fresh {}'.format(_reg(st.body[0].targets[0])))
+            continue
+        # scalar = self.functional(x)
+        if isinstance(st, ast.Assign) and len(st.targets) == 1 and _sub_call(st.value) and \
+                _sub_call(st.value)[2] is None:
+            first, arg, _ = _sub_call(st.value)
+            out.append('Stmt.callOut {} {} {}'.format(_b(first), _reg(arg), _reg(st.targets[0])))
+            continue
+        # self.left(x, out=tmp)   /   return self.left(tmp, out=out)   /   return out
+        val = st.value if isinstance(st, ast.Expr) or (isinstance(st, ast.Return) and last) else None
+        if isinstance(st, ast.Return) and last and isinstance(val, ast.Name) and val.id == 'out':
+            continue
+        if val is not None and _sub_call(val) and _sub_call(val)[2] is not None:
+            first, arg, dst = _sub_call(val)
+            if isinstance(st, ast.Return) and _u(dst) != 'out':
+                raise ExtractionError('in-place branch returns a call that writes to ' + _u(dst))
+            inner = _sub_call(arg)
+            if inner is not None and inner[2] is None:
+                # self.left(self.right(x), out=out): the inner call is out-of-place
+                out.append('Stmt.callOut {} {} Reg.sc'.format(_b(inner[0]), _reg(inner[1])))
+                out.append('Stmt.callIn {} Reg.sc {}'.format(_b(first), _reg(dst)))
+            else:
+                out.append('Stmt.callIn {} {} {}'.format(_b(first), _reg(arg), _reg(dst)))
+            continue
+        # out += tmp, out *= self.scalar
+        if isinstance(st, ast.AugAssign) and isinstance(st.op, (ast.Add, ast.Mult)):
+            out.append('Stmt.{} {} {}'.format('iadd' if isinstance(st.op, ast.Add) else 'imul',
+                                              _reg(st.target), _opd(st.value)))
+            continue
+        # tmp.lincomb(self.scalar, x) ; x.multiply(self.vector, out=tmp)
+        if isinstance(st, ast.Expr) and isinstance(st.value, ast.Call) and \
+                isinstance(st.value.func, ast.Attribute) and isinstance(st.value.func.value, ast.Name):
+            c = st.value
+            kws = {k.arg: k.value for k in c.keywords}
+            if c.func.attr == 'lincomb' and len(c.args) == 2 and not kws:
+                out.append('Stmt.lincomb {} {} {}'.format(_reg(c.func.value), _opd(c.args[0]),
+                                                          _opd(c.args[1])))
+                continue
+            if c.func.attr == 'multiply' and len(c.args) == 1 and set(kws) == {'out'}:
+                out.append('Stmt.multiply {} {} {}'.format(_reg(c.func.value), _opd(c.args[0]),
+                                                           _reg(kws['out'])))
+                continue
+        raise ExtractionError('unknown statement in an in-place branch: `{}`'.format(_u(st)))
+    return out
+
+
+def _prog(rest):
+    """the `else:` part of `if out is None: return … else: …` -> Lean `Prog` term"""
+    def lst(b):
+        return '[' + ', '.join(_stmts(b)) + ']'
+    if len(rest) == 1 and isinstance(rest[0], ast.If) and \
+            _u(rest[0].test) == 'self.right.is_functional' and rest[0].orelse:
+        return '(Prog.ifSecondFunctional {} {})'.format(lst(rest[0].body), lst(rest[0].orelse))
+    return '(Prog.stmts {})'.format(lst(rest))
 
 
 def _call_tables(opc, fnc, dfc):
-    """(class -> CExpr of the out-of-place return, list of in-place pin failures)"""
-    own, pins = {}, []
+    """(class -> CExpr of the out-of-place return, class -> Prog of the in-place branch or None)"""
+    own, ownp = {}, {}
     for c in CLASSES:
         cls = opc.get(c) or fnc.get(c) or dfc.get(c)
         m = _methods(cls).get('_call')
         if m is None:
             continue
+        argnames = [a.arg for a in m.args.args]
         body = _strip(m.body)
-        if len(body) == 1 and isinstance(body[0], ast.Return):
+        if len(body) == 1 and isinstance(body[0], ast.Return) and argnames == ['self', 'x']:
             own[c] = _cexpr(body[0].value)
+            ownp[c] = None          # `_call(self, x)`: no `out` branch
             continue
         if len(body) == 1 and isinstance(body[0], ast.If) and _u(body[0].test) == 'out is None' \
-                and len(body[0].body) == 1 and isinstance(body[0].body[0], ast.Return):
+                and len(body[0].body) == 1 and isinstance(body[0].body[0], ast.Return) \
+                and argnames == ['self', 'x', 'out'] and body[0].orelse:
             own[c] = _cexpr(body[0].body[0].value)
-            rest = body[0].orelse
-            if c == 'OperatorComp':
-                # elif self.right.is_functional: … else: tmp…; right(x, out=tmp); left(tmp, out=out)
-                txt = [_u(x) for x in rest]
-                want = ['if self.right.is_functional:\n    return self.left(self.right(x), out=out)'
-                        '\nelse:\n    tmp = self.__tmp if self.__tmp is not None else '
-                        'self.right.range.element()\n    self.right(x, out=tmp)\n'
-                        '    return self.left(tmp, out=out)']
-                if txt != want:
-                    pins.append('in-place branch of OperatorComp._call changed')
-            elif [_u(x) for x in rest] != INPLACE.get(c):
-                pins.append('in-place branch of {}._call changed: {}'.format(
-                    c, [_u(x) for x in rest]))
+            ownp[c] = _prog(body[0].orelse)
             continue
         raise ExtractionError('{}._call has an unknown shape'.format(c))
     # classes without their own _call inherit it (MRO: the Operator… base; ZeroFunctional from
@@ -307,7 +405,7 @@ def _call_tables(opc, fnc, dfc):
                'FunctionalRightScalarMult': 'OperatorRightScalarMult',
                'FunctionalRightVectorMult': 'OperatorRightVectorMult',
                'ZeroFunctional': 'ConstantFunctional'}
-    out = {}
+    out, outp = {}, {}
     for c in CLASSES:
         k = c
         while k not in own:
@@ -319,7 +417,8 @@ def _call_tables(opc, fnc, dfc):
                 raise ExtractionError('bases of {} are {}'.format(k, bases))
             k = inherit[k]
         out[c] = own[k]
-    return out, pins
+        outp[c] = ownp[k]
+    return out, outp
 
 
 def live_overrides():
@@ -403,7 +502,7 @@ def extract(repo=None):
         raise ExtractionError('__div__ alias changed')
     radd_alias = _aliases(fnc['Functional']).get('__radd__') == '__add__'
     pow_ok = di.pow_is_comp_loop(O['__pow__'])
-    calls, pins = _call_tables(opc, fnc, dfc)
+    calls, progs = _call_tables(opc, fnc, dfc)
     prio = float(_class_const(opc['Operator'], '__array_priority__')) > \
         float(_class_const(spc['LinearSpaceElement'], '__array_priority__'))
     mod_funcs = {n.name: n for n in op_tree.body if isinstance(n, ast.FunctionDef)}
@@ -426,6 +525,9 @@ def extract(repo=None):
     lines += ['', 'def callOf : Cls → CExpr']
     for c in CLASSES:
         lines.append('  | .{} => {}'.format(c, calls[c]))
+    lines += ['', 'def inplaceOf : Cls → Option Prog']
+    for c in CLASSES:
+        lines.append('  | .{} => {}'.format(c, 'none' if progs[c] is None else 'some ' + progs[c]))
     lines += ['', 'def tables : Tables where']
     for k in ['operatorAdd', 'operatorMul', 'operatorRMul', 'rscalMul', 'functionalAdd',
               'functionalMul', 'functionalRMul']:
@@ -445,8 +547,6 @@ def extract(repo=None):
          _deleg(O['__rmatmul__']) == 'Deleg.selfRMulOther', 'source text compared'),
         ('assert(Functional{Left,Right}ScalarMult.__init__ hand (func, scalar) unchanged to the '
          'Operator base constructor)', fs_ok, fs_why or 'source text compared'),
-        ('assert(in-place branches of the _call bodies are the modelled statement lists)',
-         not pins, '; '.join(pins) or 'source text compared'),
     ]
     return '\n'.join(lines), asserts
 
